@@ -1,28 +1,3 @@
-"""Texts for MANIFEST.json, one entry per claimed property."""
+"""Texts for MANIFEST.json live in props/Cxx.py (TEXT); this module re-exports them."""
+from props_config import TEXTS
 PENDING = {}
-TEXTS = {
-    "C18": dict(
-        text="Kernel-checked theorems, for every list of leaves over an abstract node type and compression function: the incremental binary-counter "
-             "algorithm of fast_merkle_root equals the level-by-level definitional tree (C18_refines), the empty/single cases (C18_small), and two "
-             "different equally long leaf lists with equal roots exhibit an explicit compression collision (C18_depends). The model is tied to the code "
-             "on every run by executing both on every leaf count 0..n with the real SHA-256 compression; the harness also evaluates the definitional "
-             "tree directly on the implementation.",
-        design_ref="DESIGN.md section 6, C18",
-        note="Trusted: Coq kernel; hand-written model of the carry loop/final sweep as a list of optional nodes (slot k is Some iff bit k of count is set) — "
-             "the u32 counter and the fixed 32-entry array are not modelled (lists >= 2^32 leaves); SHA-256 compression abstract in the theorems; "
-             "extraction + 40-line OCaml driver audited by in-kernel vm_compute; Rust harness.",
-        technique="Coq proof by induction (binary-counter invariant = split tree = level-by-level tree) + per-run model/implementation correspondence",
-    ),
-    "C01": dict(
-        text="Kernel-checked theorems for every consensus codec (confidential value/asset/nonce, TxIn, TxOut, Transaction, dynafed Params/FullParams, BlockHeader, Block), "
-             "each assembled from combinators whose laws are proved once: a decoder that accepts has consumed a prefix that re-encodes to exactly itself (so no two byte strings "
-             "decode to equal values), decoder outputs satisfy the canonicity predicate wf, every wf value decodes back from its encoding whatever follows, and the length the "
-             "encoder reports equals the bytes written. Unbounded in all sizes; for every curve-point oracle and every allocation cap. The model is run against "
-             "deserialize_partial/serialize/consensus_encode of the real crate on structured, repository and mutated inputs on every check.",
-        design_ref="DESIGN.md section 6, C01",
-        note="Trusted: Coq kernel; hand-written Gallina codecs tied to the Rust by per-run correspondence; secp256k1 point validity as an oracle fed from the library; "
-             "proof-format rules transcribed from the vendored C; element caps reported by the harness. The clause about values produced by the blinding functions is "
-             "covered by correspondence only (C04's stream), not by a theorem.",
-        technique="Coq proof (codec combinator laws by induction; flag-bit arithmetic by N bit lemmas + lia) + per-run model/implementation correspondence",
-    ),
-}
